@@ -4,10 +4,12 @@ import json, subprocess, sys, os, re
 pk={'C04':'stats','C05':'stats','C06':'stats','C07':'stats','C08':'mathx','C15':'fit','C01':'stats','C02':'stats','C03':'stats','C09':'stats','C10':'stats','C11':'stats','C12':'stats','C13':'stats','C14':'stats','C16':'scale','C17':'scale','C18':'graph','C19':'graph/graphalg','C20':'graph'}
 extra={'C20-b':['C20','C09'],'C20-a':['C20','C18'],'C01-a':['C01','C03'],'C03-a':['C03','C01'],'C09-a':['C09','C20'],'C10-a':['C10','C20']}
 only=sys.argv[1:] 
+demo_pkg={'C17-g':'scale'}  # demonstration lives in another package than the changed file
 for d in sorted(os.listdir('/verif/seeded')):
     if only and d not in only: continue
     pid=d.split('-')[0]; sd=f'/verif/seeded/{d}'
     pdir=os.path.dirname(re.search(r'^\+\+\+ b/(\S+)',open(sd+'/patch.diff').read(),re.M).group(1))
+    pdir=demo_pkg.get(d,pdir)
     v=subprocess.run(['/verif/tools/seed_verify.sh',sd,pdir],capture_output=True,text=True).stdout
     wo=re.search(r'== demo WITHOUT change:\n(.*?)\n==',v,re.S); wi=re.search(r'== demo WITH change:\n(.*?)\n==',v,re.S); su=v.split('== existing suite WITH change:')[-1]
     ok_without = wo and 'ok ' in wo.group(1) and 'FAIL' not in wo.group(1)
